@@ -76,13 +76,19 @@ Definition ex_h2 := ex_h [120; 121; 46; 122] 2 19018 (repeat 200 32).
 Example C06_ex_hello_ok : hello_ok ex_h1 = true /\ hello_ok ex_h2 = true.
 Proof. split; vm_compute; reflexivity. Qed.
 
-Example C06_ex_same_shape : same_shape false ex_h1 ex_h2 /\ same_sizes ex_h1 ex_h2.
+Example C06_ex_same_shape : same_shape false ex_h1 ex_h2.
 Proof.
-  split.
-  - unfold same_shape. refine (conj _ (conj _ (conj _ (conj _ _)))); vm_compute; reflexivity.
-  - unfold same_sizes. refine (conj _ (conj _ (conj _ (conj _ _)))); try (vm_compute; reflexivity).
-    cbn [ex_h1 ex_h2 ex_h h_exts].
-    repeat (apply Forall2_cons; [vm_compute; reflexivity|]). apply Forall2_nil.
+  unfold same_shape. refine (conj _ (conj _ (conj _ (conj _ _)))).
+  all: vm_compute. all: reflexivity.
+Qed.
+
+Example C06_ex_same_sizes : same_sizes ex_h1 ex_h2.
+Proof.
+  unfold same_sizes. refine (conj _ (conj _ (conj _ (conj _ _)))).
+  1-4: (vm_compute; reflexivity).
+  cbn [ex_h1 ex_h2 ex_h h_exts].
+  repeat (apply Forall2_cons; [vm_compute; reflexivity|]).
+  apply Forall2_nil.
 Qed.
 
 Example C06_ex_roundtrip :
